@@ -64,6 +64,8 @@ fn main() {
                     println!("{}\n====", specs::s2::SPECTWO_TEXT);
                     println!("{}\n====", specs::s3::SPECTHREE_TEXT);
                     println!("{}\n====", specs::s4::SPECFOUR_TEXT);
+                    println!("{}\n====", specs::s5::SPECFIVE_TEXT);
+                    println!("{}\n====", specs::s6::SPECSIX_TEXT);
                 }
                 "load" => {
                     let path = args.extra.get("file").expect("--file");
